@@ -8,5 +8,6 @@ CONSTANTS
   Perturbs <- AllPerturbs
 INVARIANT SplitConcatIdentity
 INVARIANT RejectsBad
+INVARIANT LoopIsConsistency
 INVARIANT Associative
 CHECK_DEADLOCK FALSE
